@@ -112,6 +112,9 @@ Lemma epath_rt : forall a d rest, canon_lp a = true -> length (ppr_lp a ++ rest)
 Proof.
   intros a d rest Hc Hl Hd Hr.
   destruct (pstop_facts _ Hr) as (S1 & S2 & S3 & S4 & S5 & S6).
+  assert (TS : forall X : list (list N), N.eqb (tokc (sl :: X)) ch_solidus = true) by reflexivity.
+  assert (TB : forall X : list (list N), N.eqb (tokc (sl :: X)) ch_lbrack = false) by reflexivity.
+  assert (RA : forall X : list (list N), root_alone (sl :: X) = false) by reflexivity.
   unfold canon_lp, ppr_lp, dep_lp, expr_of_lp in *. destruct (split_head a) as [h r] eqn:E. clear E. andbs Hc.
   unfold p_path, p_filter, p_primary.
   destruct h as [| | |f|f].
@@ -123,7 +126,7 @@ Proof.
       unfold tok, str, pstep in *. rewrite E. exact K1. }
     unfold tok, str, pstep in *. rewrite PK. unfold p_locpath. cbv zeta. unfold tok, str, pstep in *. rewrite G3. cbn [negb orb]. rewrite G1. cbn [negb andb].
     change (ppr_steps r ++ rest) with ([] ++ ppr_steps r ++ rest).
-    rewrite (esteps_rt r NE Hc lf d [] rest); auto; try (unfold lf; cbn [app]; lia).
+    rewrite (esteps_rt r NE Hc lf d [] rest); auto; try (unfold lf; cbn [app]; unfold tok, str, pstep in *; lia).
     cbn [pre_steps app]. rewrite S2, S1. reflexivity.
   - (* '/' *)
     cbn [app] in *.
@@ -134,7 +137,7 @@ Proof.
       - destruct r as [|s r']; [exact S4|]. destruct (steps_shape (s :: r') rest ltac:(discriminate)) as (k & X & E).
         unfold tok, str, pstep in *. rewrite E. unfold axis_kw; destruct (is_attr_kind k); reflexivity. }
     unfold tok, str, pstep in *. rewrite PK. unfold p_locpath. cbv zeta. unfold tok, str, pstep in *.
-    replace (N.eqb (tokc (sl :: ppr_steps r ++ rest)) ch_solidus) with true by reflexivity. cbn [tl negb orb].
+    rewrite !TS. cbn [tl negb orb].
     destruct r as [|s r'].
     + cbn [ppr_steps app esteps_of flat_map].
       assert (Q : (negb (isnil rest) && negb (root_alone rest))%bool = false).
@@ -145,17 +148,17 @@ Proof.
       destruct (kw_primary k X) as [K1 K2].
       unfold tok, str, pstep in *. rewrite E. rewrite K2. cbn [isnil negb andb]. rewrite <- E.
       change (ppr_steps (s :: r') ++ rest) with ([] ++ ppr_steps (s :: r') ++ rest).
-      rewrite (esteps_rt (s :: r') NE Hc lf d [] rest); auto; try (unfold lf; cbn [app length] in *; lia).
+      rewrite (esteps_rt (s :: r') NE Hc lf d [] rest); auto; try (unfold lf; cbn [app length] in *; unfold tok, str, pstep in *; lia).
       cbn [pre_steps app]. rewrite S2, S1. reflexivity.
   - (* '//' *)
     apply negb_true_iff in Hc0. assert (NE : r <> []) by (destruct r; [discriminate|discriminate]).
     cbn [app] in *.
     assert (PK : primary_kind fl (sl :: sl :: ppr_steps r ++ rest) = PkPath) by (apply pk_root; reflexivity).
     unfold tok, str, pstep in *. rewrite PK. unfold p_locpath. cbv zeta. unfold tok, str, pstep in *.
-    replace (N.eqb (tokc (sl :: sl :: ppr_steps r ++ rest)) ch_solidus) with true by reflexivity. cbn [tl negb orb].
-    replace (root_alone (sl :: ppr_steps r ++ rest)) with false by reflexivity. cbn [isnil negb andb].
+    rewrite !TS. cbn [tl negb orb].
+    rewrite !RA. cbn [isnil negb andb].
     change (sl :: ppr_steps r ++ rest) with ([sl] ++ ppr_steps r ++ rest).
-    rewrite (esteps_rt r NE Hc lf d [sl] rest); auto; try (unfold lf; cbn [app length] in *; lia).
+    rewrite (esteps_rt r NE Hc lf d [sl] rest); auto; try (unfold lf; cbn [app length] in *; unfold tok, str, pstep in *; lia).
     cbn [pre_steps app]. rewrite S2, S1. reflexivity.
   - (* id() / key(), alone or followed by '/' *)
     destruct f as [| | | | | | | | | | | | | | | | | | |name args| |]; try discriminate Hc0.
@@ -172,10 +175,9 @@ Proof.
     unfold tailtoks in *. destruct r as [|s r'].
     + cbn [app]. rewrite S1. reflexivity.
     + assert (NE : s :: r' <> []) by discriminate. cbn [app].
-      replace (N.eqb (tokc (sl :: ppr_steps (s :: r') ++ rest)) ch_solidus) with true by reflexivity. cbn [tl].
+      rewrite !TS. cbn [tl].
       change (ppr_steps (s :: r') ++ rest) with ([] ++ ppr_steps (s :: r') ++ rest).
       rewrite (esteps_rt (s :: r') NE Hc lf d [] rest); auto; try (unfold lf); try len.
-      reflexivity.
   - (* id() / key() followed by '//' *)
     destruct f as [| | | | | | | | | | | | | | | | | | |name args| |]; try discriminate Hc0.
     apply andb_prop in Hc0. destruct Hc0 as [Hf Hne].
@@ -185,11 +187,85 @@ Proof.
     pose proof (prim_rt fl ns pe lf n (expr_size (EFunc name args)) ltac:(unfold lf; lia)
                   (fun e He Hce => HpeE _ e He Hce) (EFunc name args) eq_refl Hcf ltac:(lia) d (sl :: sl :: ppr_steps r ++ rest) Hl ltac:(lia) eq_refl eq_refl) as P.
     unfold p_primary in P. unfold tok, str, pstep in *. rewrite P.
-    replace (N.eqb (tokc (sl :: sl :: ppr_steps r ++ rest)) ch_lbrack) with false by reflexivity.
-    replace (N.eqb (tokc (sl :: sl :: ppr_steps r ++ rest)) ch_solidus) with true by reflexivity. cbn [tl].
+    rewrite !TB.
+    rewrite !TS. cbn [tl].
     change (sl :: ppr_steps r ++ rest) with ([sl] ++ ppr_steps r ++ rest).
     rewrite (esteps_rt r NE Hc lf d [sl] rest); auto; try (unfold lf); try len.
-    reflexivity.
+Qed.
+
+Fixpoint ppr_tail (P : pattern) : list tok :=
+  match P with [] => [] | a :: r => [ch_bar] :: ppr_lp a ++ ppr_tail r end.
+Lemma ppr_split : forall a r, ppr (a :: r) = ppr_lp a ++ ppr_tail r.
+Proof.
+  intros a r. revert a. induction r as [|b r IH]; intros a.
+  - cbn [ppr ppr_tail]. rewrite app_nil_r. reflexivity.
+  - change (ppr (a :: b :: r)) with (ppr_lp a ++ [ch_bar] :: ppr (b :: r)). rewrite IH. reflexivity.
+Qed.
+Lemma pstop_tail : forall r, pstop (ppr_tail r) = true.
+Proof. intros [|a r]; reflexivity. Qed.
+
+Lemma lp_nonempty : forall a rest, canon_lp a = true -> ppr_lp a ++ rest <> [].
+Proof.
+  intros a rest Hc. unfold canon_lp, ppr_lp in *. destruct (split_head a) as [h r]. andbs Hc.
+  destruct h as [| | |f|f]; try discriminate.
+  - apply negb_true_iff in Hc0. assert (NE : r <> []) by (destruct r; [discriminate|discriminate]).
+    destruct (steps_shape r rest NE) as (k & X & E). unfold tok, str, pstep in *. rewrite E. discriminate.
+  - destruct f; try discriminate Hc0. rewrite pr_func. discriminate.
+  - destruct f; try discriminate Hc0. rewrite pr_func. discriminate.
+Qed.
+
+Lemma eunion_rest_rt : forall r, forallb canon_lp r = true -> forall m d,
+  length (ppr_tail r) <= n -> length (ppr_tail r) < m -> d + dep_pattern r <= gen_xpc_max_nesting ->
+  p_union_rest fl ns pe lf m d (ppr_tail r) = Ok (map expr_of_lp r, []).
+Proof.
+  induction r as [|a r IH]; intros Hc m d Hl Hm Hd.
+  - destruct m; [cbn in Hm; lia|]. reflexivity.
+  - cbn [forallb] in Hc. apply andb_prop in Hc. destruct Hc as [Ha Hr]. cbn [dep_pattern] in Hd.
+    destruct m; [lia|]. cbn [p_union_rest ppr_tail].
+    change (N.eqb (tokc ([ch_bar] :: ppr_lp a ++ ppr_tail r)) ch_bar) with true. cbv iota. cbn [tl].
+    pose proof (lp_nonempty a (ppr_tail r) Ha) as NE.
+    destruct (ppr_lp a ++ ppr_tail r) as [|t0 q0] eqn:E; [congruence|]. rewrite <- E in *.
+    cbn [ppr_tail length] in Hl, Hm.
+    rewrite epath_rt; auto; try lia; try apply pstop_tail.
+    rewrite app_length in *.
+    rewrite IH; auto; try lia.
 Qed.
 
 End ERT.
+
+Lemma level_from_union : forall fl ns pe lf d ts e, 1 <= lf ->
+  p_union fl ns pe lf d ts = Ok (e, []) -> N.eqb (tokc ts) ch_hyphen = false ->
+  forall L, p_level fl ns pe lf L d ts = Ok (e, []).
+Proof.
+  intros fl ns pe lf d ts e Hlf H Hh. induction L as [|L IH].
+  - cbn [p_level]. destruct lf; [lia|]. cbn [p_unary]. rewrite Hh. exact H.
+  - cbn [p_level]. destruct (right_nested (S L)).
+    + destruct lf; [lia|]. cbn [p_rlevel]. rewrite IH. rewrite match_op_nil. reflexivity.
+    + rewrite IH. destruct lf; [lia|]. cbn [p_lrest]. rewrite match_op_nil. reflexivity.
+Qed.
+
+Theorem pattern_as_expression_m : forall fl ns P, pcanon P = true -> S (dep_pattern P) <= gen_xpc_max_nesting ->
+  parse fl ns (ppr P) = Ok (expr_of P).
+Proof.
+  intros fl ns P Hc Hd. unfold pcanon in Hc. apply andb_prop in Hc. destruct Hc as [H1 H2].
+  destruct P as [|a r]; [discriminate|]. clear H1.
+  cbn [forallb] in H2. apply andb_prop in H2. destruct H2 as [Ha Hr]. cbn [dep_pattern] in Hd.
+  unfold parse. set (n := length (ppr (a :: r))). cbn [p_expr].
+  assert (D : Nat.ltb gen_xpc_max_nesting 1 = false) by (apply Nat.ltb_ge; lia). rewrite D.
+  assert (U : p_union fl ns (p_expr fl ns n) (S n) 1 (ppr (a :: r)) = Ok (expr_of (a :: r), [])).
+  { unfold p_union. subst n. rewrite ppr_split in *.
+    rewrite (epath_rt fl ns _ a 1 (ppr_tail r)); auto; try lia; try apply pstop_tail.
+    rewrite app_length.
+    rewrite (eunion_rest_rt fl ns _ r Hr (S (length (ppr_lp a) + length (ppr_tail r))) 1); try lia.
+    destruct r; reflexivity. }
+  assert (F : N.eqb (tokc (ppr (a :: r))) ch_hyphen = false).
+  { rewrite ppr_split. unfold canon_lp, ppr_lp in *. destruct (split_head a) as [h q]. andbs Ha.
+    destruct h as [| | |f|f]; try reflexivity.
+    - apply negb_true_iff in Ha0. assert (NE : q <> []) by (destruct q; [discriminate|discriminate]).
+      destruct (steps_shape q (ppr_tail r) NE) as (k & X & E). unfold tok, str, pstep in *. rewrite E.
+      unfold axis_kw. destruct (is_attr_kind k); reflexivity.
+    - destruct f; try discriminate Ha0. destruct (idkey_name _ _ Ha0) as ([-> | ->] & _ & _); rewrite pr_func; reflexivity.
+    - destruct f; try discriminate Ha0. apply andb_prop in Ha0. destruct Ha0 as [Ha0 _].
+      destruct (idkey_name _ _ Ha0) as ([-> | ->] & _ & _); rewrite pr_func; reflexivity. }
+  rewrite (level_from_union fl ns _ (S n) 1 _ _ ltac:(lia) U F 6). reflexivity.
+Qed.
